@@ -85,6 +85,8 @@ def sym_name(k, body=None):
         return "%s*" % (body.local_name(k[1]) or "_%d" % k[1])
     if k[0] == "place" and body is not None:
         return "%s.%s" % (body.local_name(k[1]) or "_%d" % k[1], ".".join(k[2]))
+    if k[0] == "shr":
+        return "floor((%s) / 2^%d)" % (" + ".join("%s*%s" % (v, n) for n, v in k[1][0]) + (" + " + k[1][1] if k[1][1] != "0" else ""), k[2])
     return repr(k)
 
 
@@ -117,10 +119,26 @@ def canon_place(body, place, depth=0):
     return root, tuple(fields)
 
 
+def floor_shift(a, k):
+    """exact form of floor(a / 2^k) over the integers: constants are folded, common factors of two are cancelled, and what remains is an
+    opaque symbol ('shr', canonical key of a, k) -- so n - (n >> 2) and (3n) >> 2, equal over the rationals, are different forms"""
+    k = int(k)
+    if a.is_const() and a.c.denominator == 1:
+        return Aff.const(int(a.c) >> k)
+    while k > 0 and a.c.denominator == 1 and int(a.c) % 2 == 0 and all(v.denominator == 1 and int(v) % 2 == 0 for v in a.terms.values()):
+        a = a.scale(Fraction(1, 2))
+        k -= 1
+    if k == 0:
+        return a
+    key = (tuple(sorted(((repr(s), str(v)) for s, v in a.terms.items()))), str(a.c))
+    return Aff.sym(("shr", key, k))
+
+
 class Evaluator:
-    def __init__(self, body):
+    def __init__(self, body, exact_shifts=False):
         self.body = body
         self.cache = {}
+        self.exact_shifts = exact_shifts
 
     def operand(self, op, depth=0):
         if "const" in op:
@@ -208,8 +226,15 @@ class Evaluator:
             if base == "Shl" and b.is_const():
                 return a.scale(Fraction(2) ** int(b.c))
             if base == "Shr" and b.is_const():
+                if self.exact_shifts:
+                    return floor_shift(a, b.c)
                 return a.scale(Fraction(1, 2 ** int(b.c)))
             if base == "Div" and b.is_const() and b.c != 0:
+                if self.exact_shifts:
+                    d = int(b.c) if b.c.denominator == 1 else 0
+                    if d > 0 and d & (d - 1) == 0:
+                        return floor_shift(a, d.bit_length() - 1)
+                    return TOP
                 return a.scale(Fraction(1) / b.c)
             if base in ("BitOr", "BitAnd", "BitXor") and a.is_const() and b.is_const() and a.c.denominator == 1 and b.c.denominator == 1:
                 x, y = int(a.c), int(b.c)
@@ -241,3 +266,86 @@ def evaluator(body):
         e = Evaluator(body)
         body._aff = e
     return e
+
+
+def evaluator_exact(body):
+    """like evaluator(), but x >> k and x / 2^k are floor terms, not rational divisions"""
+    e = getattr(body, "_aff_exact", None)
+    if e is None:
+        e = Evaluator(body, exact_shifts=True)
+        body._aff_exact = e
+    return e
+
+
+# ------------------------------------------------------------------------------------------
+# linear facts established by the comparisons that dominate a point (operator- and side-independent)
+
+_REL = {  # a REL b, as facts about lin = a - b over the integers: list of (sign, bound) meaning sign*lin <= bound; 'ne' separately
+    "Lt": [(1, -1)], "Le": [(1, 0)], "Gt": [(-1, -1)], "Ge": [(-1, 0)], "Eq": [(1, 0), (-1, 0)], "Ne": "ne",
+}
+_NEG = {"Lt": "Ge", "Le": "Gt", "Gt": "Le", "Ge": "Lt", "Eq": "Ne", "Ne": "Eq"}
+
+
+def branch_facts(body):
+    """[(block, target, kind, lin, bound)]: taking the edge block->target establishes  lin <= bound  (kind 'le') or lin != 0 (kind 'ne')"""
+    bf = getattr(body, "_branch_facts", None)
+    if bf is not None:
+        return bf
+    from .analysis import cond_of
+    ev = evaluator(body)
+    bf = []
+    for blk in range(len(body.blocks)):
+        cd = cond_of(body, blk)
+        if not cd or cd["kind"] != "cmp" or cd["op"] not in _REL:
+            continue
+        a, b = ev.operand(cd["a"]), ev.operand(cd["b"])
+        if a is TOP or b is TOP:
+            continue
+        lin = a - b
+        for tgt, op in ((cd["true"], cd["op"]), (cd["false"], _NEG[cd["op"]])):
+            r = _REL[op]
+            if r == "ne":
+                bf.append((blk, tgt, "ne", lin, None))
+            else:
+                for sign, bound in r:
+                    bf.append((blk, tgt, "le", lin.scale(sign), Fraction(bound)))
+    body._branch_facts = bf
+    return bf
+
+
+def facts_at(body, pt):
+    """the branch facts whose edge dominates pt"""
+    from .analysis import dominated_by_edge
+    out = []
+    cache = {}
+    for blk, tgt, kind, lin, bound in branch_facts(body):
+        k = (blk, tgt)
+        if k not in cache:
+            cache[k] = dominated_by_edge(body, pt, [k])
+        if cache[k]:
+            out.append((kind, lin, bound, blk))
+    return out
+
+
+def le_at(body, pt, lin, bound):
+    """does  lin <= bound  hold whenever pt executes (by one dominating comparison)?  returns the deciding block or None"""
+    for kind, l2, b2, blk in facts_at(body, pt):
+        if kind != "le":
+            continue
+        d = l2 - lin
+        if d.is_const() and b2 - d.c <= bound:
+            return blk
+    return None
+
+
+def ne0_at(body, pt, lin):
+    """does lin != 0 hold at pt (lin != 0, lin <= -1 or lin >= 1 by one dominating comparison)?"""
+    for kind, l2, b2, blk in facts_at(body, pt):
+        if kind == "ne" and (l2 == lin or l2 == lin.scale(-1)):
+            return blk
+        if kind == "le":
+            for s in (1, -1):
+                d = l2 - lin.scale(s)
+                if d.is_const() and b2 - d.c <= -1:
+                    return blk
+    return None
